@@ -16,8 +16,8 @@ PROPERTY = "C10"
 # frozen tolerance constants (calibrated on the unchanged tree, worst ratio <= ~0.2 over seeds 1..5)
 C_PINV = 128.0      # |x - x*|            <= C_PINV eps cond |b| / sigma_r
 C_LSTSQ = 32.0      # |A^T (A x - b)|     <= C_LSTSQ eps (max(m,n)+8) |A| (|A||x| + |b|)
-C_CHOL = 32.0       # |x - A^-1 b|        <= C_CHOL eps (n+4) cond |x*|
-C_CG = 32.0         # |b - A x|           <= tol|b| + C_CG eps cond |A| (|x| + |x0|)
+C_CHOL = 16.0       # |x - A^-1 b|        <= C_CHOL eps (n+4) cond |x*|
+C_CG = 16.0         # |b - A x|           <= tol|b| + C_CG eps cond |A| (|x| + |x0|)
 NONPD_RES = 1e-6    # failure clause: a returned x must satisfy |Ax-b| <= 1e-6 (|A||x| + |b|)
 AMBIG = 0.5         # rank-deficient items: sigma_{r+1}(fl(A)) must be <= AMBIG * max(m,n) eps sigma_1
 
@@ -30,13 +30,13 @@ RULE = (
     "PINV (default arguments; hermitian=True on the symmetric structure): |x - x*| <= 128 eps cond |b| / sigma_r "
     "(x = 0 exactly for A = 0).  LSTSQ (driver None/gelsy/gelsd/gelss on everything, gels on full-rank A only): "
     "|A^T(Ax-b)| <= 32 eps (max(m,n)+8) |A| (|A||x|+|b|) (any least-squares solution; no condition-number factor). "
-    "cholesky: SPD Q diag(lam) Q^T, cond <= 1e8, batches, upper/lower: |x - Q lam^-1 Q^T b| <= 32 eps (n+4) cond |x*|; "
+    "cholesky: SPD Q diag(lam) Q^T, cond <= 1e8, batches, upper/lower: |x - Q lam^-1 Q^T b| <= 16 eps (n+4) cond |x*|; "
     "failure clause (indefinite with lam_min <= -1e-3 lam_max; exactly singular integer L0 L0^T with a zero on the "
     "diagonal of L0 = exact zero pivot; zero matrix; one non-PD item inside an SPD batch): the call must raise or "
     "return x with |Ax-b| <= 1e-6 (|A||x|+|b|).  cg: SPD with prescribed spectrum (dense Q lam Q^T or permuted "
     "block-diagonal = genuinely sparse), n <= 40, cond <= 1e3, layouts dense/CSR/COO/BSR for A and M (probed once at "
     "import), x0 in {none, random, near, exact, zero}, M in {none, Jacobi, perturbed exact inverse}, tol in "
-    "{1e-3,1e-5,1e-8}, |b| = 10^-4..10^4, b (n,) or (n,1), b = eigenvector, b = 0: |b - Ax| <= tol |b| + 32 eps cond "
+    "{1e-3,1e-5,1e-8}, |b| = 10^-4..10^4, b (n,) or (n,1), b = eigenvector, b = 0: |b - Ax| <= tol |b| + 16 eps cond "
     "|A| (|x|+|x0|); b = 0 -> x = 0 exactly; x0, A, b, M unchanged (side check).  sparse: block matrices (0..6 block "
     "rows/cols, block sizes 1..4 rectangular, pattern styles random density 0..1 / full / empty / diag / band / "
     "first / last / empty row / empty column, explicitly stored zero blocks), integer-valued (torch.equal with the "
@@ -88,8 +88,12 @@ def _cls(k):
     return "1" if k == 1 else "2-4" if k <= 4 else "5-12" if k <= 12 else "13-40"
 
 
+SIZES = (1, 2, 2, 3, 3, 4, 4, 5, 5, 6, 6, 7, 8, 9, 10, 11, 12, 13, 15, 16, 17, 20, 24, 25, 28, 31, 32, 33, 36, 39, 40)
+
+
 def _size_st():
-    return st.one_of(st.integers(1, 5), st.integers(1, 12), st.integers(1, 40))
+    # (a table instead of st.integers: Hypothesis' integer strategies over-sample the lower bound heavily)
+    return st.sampled_from(SIZES)
 
 
 def _batch_st():
@@ -137,7 +141,7 @@ CG_LAYOUT_OK = _probe_cg_layouts()
 STRUCTS = ("svd", "svd", "svd", "sym", "dupcols", "duprows", "zerocols", "zerorows")
 SMODES = ("geom", "one_small", "one_large", "equal_pairs", "rand")
 BKINDS = ("range", "mixed", "orth", "random", "xtrue", "zero")
-RANKMODES = ("full", "full", "def", "def1", "mixed", "zero")
+RANKMODES = ("full", "full", "full", "def", "def", "def", "def1", "def1", "mixed", "mixed", "zero")
 
 
 class _Item:
@@ -234,7 +238,7 @@ def _ls_case(draw, with_driver):
     dtype = draw(st.sampled_from(("float64", "float64", "float64", "float64", "float32")))
     struct = draw(st.sampled_from(STRUCTS))
     m, n = draw(_size_st()), draw(_size_st())
-    shape = draw(st.sampled_from(("any", "any", "square", "tall1", "wide1")))
+    shape = draw(st.sampled_from(("any", "any", "any", "any", "square", "tall1", "wide1")))
     if shape == "square":
         n = m
     elif shape == "tall1":
@@ -245,10 +249,10 @@ def _ls_case(draw, with_driver):
         n = m
     case = {"m": m, "n": n, "batch": draw(_batch_st()), "dtype": dtype, "struct": struct,
             "rankmode": draw(st.sampled_from(RANKMODES)),
-            "cond_exp": draw(st.integers(0, 8 if dtype == "float64" else 3)),
+            "cond_exp": draw(st.sampled_from(range(0, 9 if dtype == "float64" else 4))),
             "cond_mant": draw(st.sampled_from((1.0, 1.0, 3.0))),
             "smode": draw(st.sampled_from(SMODES)), "bkind": draw(st.sampled_from(BKINDS)),
-            "ascale_exp": draw(st.integers(-3, 3)), "bscale_exp": draw(st.integers(-3, 3)),
+            "ascale_exp": draw(st.sampled_from(range(-3, 4))), "bscale_exp": draw(st.sampled_from(range(-3, 4))),
             "factor": draw(st.sampled_from(("qr", "qr", "householder"))),
             "view": draw(st.sampled_from(("contig", "contig", "transposed"))),
             "seed": draw(st.integers(0, 2 ** 31 - 1))}
@@ -431,9 +435,9 @@ def _chol_case(draw):
     if kind == "batch_mixed" and not batch:
         batch = [2]
     return {"kind": kind, "n": draw(_size_st()), "batch": batch, "dtype": dtype, "upper": draw(st.booleans()),
-            "cond_exp": draw(st.integers(0, 8 if dtype == "float64" else 3)),
-            "smode": draw(st.sampled_from(SMODES)), "bkind": draw(st.sampled_from(("random", "range", "eig", "zero"))),
-            "ascale_exp": draw(st.integers(-3, 3)), "bscale_exp": draw(st.integers(-3, 3)),
+            "cond_exp": draw(st.sampled_from(range(0, 9 if dtype == "float64" else 4))),
+            "smode": draw(st.sampled_from(SMODES)), "bkind": draw(st.sampled_from(("random", "random", "range", "eig", "zero"))),
+            "ascale_exp": draw(st.sampled_from(range(-3, 4))), "bscale_exp": draw(st.sampled_from(range(-3, 4))),
             "factor": draw(st.sampled_from(("qr", "qr", "householder"))), "seed": draw(st.integers(0, 2 ** 31 - 1))}
 
 
@@ -586,7 +590,7 @@ def _cg_case(draw):
             "x0": x0, "M": draw(st.sampled_from(("none", "none", "jacobi", "inv_pert"))),
             "mlayout": draw(st.sampled_from(("dense", "csr", "coo", "bsr"))),
             "bshape": bshape, "bkind": draw(st.sampled_from(("rand", "rand", "rand", "eig", "zero"))),
-            "ascale_exp": draw(st.integers(-3, 3)), "bscale_exp": draw(st.integers(-4, 4)),
+            "ascale_exp": draw(st.sampled_from(range(-3, 4))), "bscale_exp": draw(st.sampled_from(range(-4, 5))),
             "seed": draw(st.integers(0, 2 ** 31 - 1))}
 
 
@@ -683,8 +687,9 @@ class CGSub(Sub):
         nA = float(lam.max())
         nx0 = _nrm(x0n) if x0n is not None else 0.0
         tol = case["tol"] * nb + C_CG * eps * cond * nA * (_nrm(xi) + nx0)
-        _note(rec, "cg_res/tol", res / tol)
-        _note(rec, "cg_res/(tol|b|)", res / (case["tol"] * nb))
+        slack = tol - case["tol"] * nb
+        if slack > 0:       # by design CG stops just below tol|b|: the calibrated quantity is the excess over it
+            _note(rec, "cg_excess/rounding_slack:" + dtype, (res - case["tol"] * nb) / slack)
         rec.check(res <= tol, "cg:residual:%s" % dtype,
                   lambda: "n=%d cond=%.3g %s tol=%g x0=%s M=%s |b|=%.3g: |b - Ax| = %.3g > %.3g"
                   % (n, cond, lay, case["tol"], case["x0"], case["M"], nb, res, tol))
@@ -755,11 +760,12 @@ def _check_product(rec, Y, An, Bn, integer, dtype, what, tag):
 @st.composite
 def _sparse_case(draw):
     la, lb = draw(st.sampled_from(LAYOUTS)), draw(st.sampled_from(LAYOUTS))
-    if draw(st.integers(0, 9)) < 4:
+    if draw(st.sampled_from((True, True, False, False, False))):
         la, lb = "bsr", "bsc"                 # pypose's own kernel gets 40 % of the budget
-    dims = st.one_of(st.integers(0, 3), st.integers(0, 6))
+    dims = st.sampled_from((0, 1, 1, 2, 2, 2, 3, 3, 3, 4, 4, 5, 5, 6, 6))
     return {"br": draw(dims), "bk": draw(dims), "bc": draw(dims),
-            "bm": draw(st.integers(1, 4)), "bi": draw(st.integers(1, 4)), "bn": draw(st.integers(1, 4)),
+            "bm": draw(st.sampled_from((1, 2, 3, 4))), "bi": draw(st.sampled_from((1, 2, 3, 4))),
+            "bn": draw(st.sampled_from((1, 2, 3, 4))),
             "la": la, "lb": lb, "api": draw(st.sampled_from(("dispatch", "dispatch", "direct"))),
             "integer": draw(st.sampled_from((True, True, False))),
             "dtype": draw(st.sampled_from(("float64", "float64", "float32"))),
